@@ -27,6 +27,9 @@ type propConfig struct {
 var propConfigs = map[string]*propConfig{
 	"C20": {replay: replayUnpack, undecided: "panics inside String() methods reached only through logging (A-LOG)"},
 	"C05": {replay: replayC05},
+	"C18": {replay: replayC18, undecided: "real interleavings and data races (timer field read/written without a common lock): contracts cover every sequence of Success/Fail/Proceed/expiry calls and the timer-fires-before-assignment schedule, not arbitrary intra-call interleavings"},
+	"C19": {replay: replayC18, undecided: "that time.AfterFunc fires after exactly the armed delay (A-TIMER); counts, order, armed delay and reset on progress are proved"},
+	"C27": {undecided: "which of several matching callbacks is invoked (the property does not ask)"},
 	"C29": {undecided: "real interleavings: atomicity is derived from the proved lock coverage plus A-MUTEX / A-ATOMICPKG, not explored"},
 }
 
